@@ -22,7 +22,7 @@ pub fn verif_lex_name(text: &str, till_in: bool, keys: &[String]) -> String {
         other => format!("?{:?}", other),
       };
       let t = format!("{:?}", tt);
-      format!("TOKEN {} pos={} name={}", t.split('(').next().unwrap_or(""), lexer.position, name)
+      format!("TOKEN {} pos={} till_in={} name={}", t.split('(').next().unwrap_or(""), lexer.position, lexer.till_in, name)
     }
     Err(e) => format!("ERROR {}", e),
   }
